@@ -13,8 +13,9 @@ What each oracle field becomes (Python expression it stands for → closed defin
   tree as constructed (no second pass)
 * `Tabular.Oracle.banned` `OnsetValidator.check_for_banned_tags` → one issue per tag whose short base tag is a time key
 * `Tabular.Oracle.markers` `find_top_level_tags(TEMPORAL_KEYS)` + first of `find_def_tags(include_groups=0)` → from the tree
-* `Tabular.Oracle.items`  NOT closed: a text containing `delay/` is outside the closed fragment (`tabUnmodelled`); so is a
-  row that gets the row-level checks although one of its cells is malformed (`rowSplit`)
+* `Tabular.Oracle.items`  NOT closed: a text containing `delay/` is outside the closed fragment (`textUnmodelled`).  A row
+  that gets the row-level checks although one of its cells is malformed (`rowSplit`) is answered from the concatenation of
+  the cells' trees (`cellsOracle`, `Tabular.validateClosedCells`), as `from_hed_strings` does
 * `SidecarV.Oracle.basic` `run_basic_checks(HedString(s, schema, def_dict).remove_refs(), allow_placeholders=True)` →
   `Validate.basicP env true` on the parse with the `{ref}` tags removed (`dropList`, `HedGroup.remove`)
 * `SidecarV.Oracle.full`  `run_full_string_checks(HedString(s, schema, def_dict))` → `Validate.fullPhase` on the tree as constructed
@@ -22,7 +23,7 @@ What each oracle field becomes (Python expression it stands for → closed defin
 * `SidecarV.Oracle.isDefExpand` the tag's short base tag is `Def-expand` → `isDefExpandText` (the `#` of an entry are counted by
   `SidecarV.treeHash` on the tree after `remove_refs` / `shrink_defs`, as `_validate_pound_sign_count` does)
 * `SidecarV.Oracle.defIssues` NOT closed: sidecars that declare definitions are outside the closed fragment
-  (`sidecarUnmodelled`); the `n/a` splice is now `Assemble.replaceRef` inside `SidecarV` (still excluded by the driver)
+  (`sidecarUnmodelled`); the `n/a` splice is `Assemble.replaceRef` inside `SidecarV`
 -/
 import HedVerif.Model.Validate
 import HedVerif.Model.Tabular
@@ -103,6 +104,52 @@ def rowSplit (env : Env) (kBanned : Tabular.RIssue) (cfg : Tabular.Cfg) (r : Tab
 def tabUnmodelled (env : Env) (kBanned : Tabular.RIssue) (cfg : Tabular.Cfg) (T : List Tabular.Row) : Bool :=
   (consulted cfg T).any (textUnmodelled env) || T.any (rowSplit env kBanned cfg)
 
+/-! ### rows with a malformed cell: the row-level checks on the concatenation of the cells' trees
+
+`HedString.from_hed_strings(row_strings)` takes the children of the checked cell strings; for cells whose parentheses or
+delimiters are broken this is not the tree of the `","`-joined text.  `validateClosedCells` uses, for exactly the rows
+flagged by `rowSplit`, the concatenated trees (spans are not shifted: the full-string checks compare spans only between
+the children of one group, which come from one cell; the file layer keeps kind and severity only). -/
+
+/-- the tree of a cell after `run_basic_checks`: the second canonicalisation pass is reached only if phase 1 passes -/
+def cellTree (env : Env) (c : Str) : List RNode :=
+  let p := parse env c
+  if hasError (stringIssues env false c p) then p.root0 else p.final env
+
+def cellsRoot (env : Env) (cells : List Str) : List RNode := cells.flatMap (cellTree env)
+
+def cellsFull (env : Env) (cells : List Str) : List Tabular.RIssue :=
+  (fullPhase env (Tabular.joinWith [','] cells).length (cellsRoot env cells)).map rissue
+
+def cellsBanned (env : Env) (k : Tabular.RIssue) (cells : List Str) : List Tabular.RIssue :=
+  ((tagsList (cellsRoot env cells)).filter fun t => allTimeKeys.contains (shortBase env t)).map fun _ => k
+
+def liveTexts (cfg : Tabular.Cfg) (r : Tabular.Row) : List Str := (Tabular.live cfg r).map (·.2.2)
+
+/-- the rows of the table whose joined text is answered from the cells' trees -/
+def splitRows (env : Env) (kBanned : Tabular.RIssue) (cfg : Tabular.Cfg) (T : List Tabular.Row) : List Tabular.Row :=
+  T.filter (rowSplit env kBanned cfg)
+
+def cellsOracle (env : Env) (kBanned : Tabular.RIssue) (cfg : Tabular.Cfg) (T : List Tabular.Row) : Tabular.Oracle :=
+  let base := tabOracle env kBanned
+  let rows := splitRows env kBanned cfg T
+  { base with
+    full := fun t => match rows.find? (fun r => Tabular.rowText cfg r == t) with
+      | some r => cellsFull env (liveTexts cfg r)
+      | none => base.full t
+    banned := fun t => match rows.find? (fun r => Tabular.rowText cfg r == t) with
+      | some r => cellsBanned env kBanned (liveTexts cfg r)
+      | none => base.banned t }
+
+/-- two rows with the same joined text but different cells, one of them split: the text does not determine the tree -/
+def splitAmbiguous (env : Env) (kBanned : Tabular.RIssue) (cfg : Tabular.Cfg) (T : List Tabular.Row) : Bool :=
+  (splitRows env kBanned cfg T).any fun r => T.any fun r' =>
+    Tabular.rowText cfg r' == Tabular.rowText cfg r && liveTexts cfg r' != liveTexts cfg r
+
+/-- the real validator raises on the concatenated tree (duplicate walk) -/
+def splitRaises (env : Env) (kBanned : Tabular.RIssue) (cfg : Tabular.Cfg) (T : List Tabular.Row) : Bool :=
+  (splitRows env kBanned cfg T).any fun r => dupRaises env (cellsRoot env (liveTexts cfg r))
+
 /-! ### evaluation with a table of the oracle's values (the driver's way to compute `validateClosed`; equal to it:
 `Props/Closed.lean`, `memoTab_eq`) -/
 
@@ -130,6 +177,11 @@ namespace HedVerif.Tabular
 /-- `SpreadsheetValidator.validate` with `HedValidator` = the model `Validate` -/
 def validateClosed (env : Validate.Env) (kBanned : RIssue) (cfg : Cfg) (T : List Row) : Except PyExc (List Issue) :=
   validate (Closed.closeCfg env kBanned cfg) T
+
+/-- the same with the row-level checks of rows holding a malformed cell computed on the concatenated cell trees
+(`Closed.cellsOracle`); equal to `validateClosed` when no row is split (`Props/Closed.lean`, `cells_eq_closed`) -/
+def validateClosedCells (env : Validate.Env) (kBanned : RIssue) (cfg : Cfg) (T : List Row) : Except PyExc (List Issue) :=
+  validate { cfg with o := Closed.cellsOracle env kBanned cfg T } T
 
 end HedVerif.Tabular
 
